@@ -943,6 +943,142 @@ def _split_tuple_assignments(fnode, new_locals):
     return changed
 
 
+def _distribute_ifexp_calls(fi, ref_locals, stats):
+    """`(F if c else G)(args)` with F and G plain names that the reference version of the function does not have is
+    `F(args) if c else G(args)`: exactly one of the two is called either way, with the same arguments."""
+    done = 0
+
+    class T(ast.NodeTransformer):
+        def visit_Call(self, node):
+            nonlocal done
+            self.generic_visit(node)
+            f = node.func
+            if isinstance(f, ast.IfExp) and isinstance(f.body, ast.Name) and isinstance(f.orelse, ast.Name) and f.body.id not in ref_locals and f.orelse.id not in ref_locals:
+                done += 1
+                a = ast.Call(func=f.body, args=node.args, keywords=node.keywords)
+                b = ast.Call(func=f.orelse, args=_clone(node.args), keywords=_clone(node.keywords))
+                new = ast.IfExp(test=f.test, body=a, orelse=b)
+                ast.copy_location(new, node)
+                ast.copy_location(a, node)
+                ast.copy_location(b, node)
+                return new
+            return node
+
+    T().visit(fi.node)
+    if done:
+        ast.fix_missing_locations(fi.node)
+        stats.setdefault("#ifexp_calls", []).append("%s:%d" % (fi.qual, done))
+    return done
+
+
+def _unfold_update_generators(fi, ref_fingerprints, stats):
+    """A new statement `D.update((K, V) for T in IT [if C])` (D a name) is the loop `for T in IT: [if C:] D[K] = V`."""
+    from . import alpha
+
+    locs = alpha.local_names(fi.node)
+    done = 0
+    for n in list(walk_function(fi.node)):
+        if not (isinstance(n, ast.Expr) and isinstance(n.value, ast.Call)):
+            continue
+        c = n.value
+        if not (isinstance(c.func, ast.Attribute) and c.func.attr == "update" and isinstance(c.func.value, ast.Name) and len(c.args) == 1 and not c.keywords and isinstance(c.args[0], (ast.GeneratorExp, ast.ListComp)) and len(c.args[0].generators) == 1):
+            continue
+        g = c.args[0]
+        if not (isinstance(g.elt, ast.Tuple) and len(g.elt.elts) == 2) or g.generators[0].is_async:
+            continue
+        if alpha._fingerprint(n, locs)[0] in ref_fingerprints:
+            continue
+        blk, _p = _block_of(n)
+        if blk is None:
+            continue
+        store = ast.Assign(targets=[ast.Subscript(value=ast.Name(id=c.func.value.id, ctx=ast.Load()), slice=g.elt.elts[0], ctx=ast.Store())], value=g.elt.elts[1], type_comment=None)
+        body = [store]
+        for cond in reversed(g.generators[0].ifs):
+            body = [ast.If(test=cond, body=body, orelse=[])]
+        tgt = _clone(g.generators[0].target)
+        for x in ast.walk(tgt):
+            if hasattr(x, "ctx"):
+                x.ctx = ast.Store()
+        loop = ast.For(target=tgt, iter=g.generators[0].iter, body=body, orelse=[], type_comment=None)
+        ast.copy_location(loop, n)
+        ast.fix_missing_locations(loop)
+        blk[[k for k, x in enumerate(blk) if x is n][0]] = loop
+        done += 1
+    if done:
+        stats.setdefault("#update_generators", []).append("%s:%d" % (fi.qual, done))
+    return done
+
+
+def _enumerate_counter_loops(fi, ref_fingerprints, stats):
+    """A new `for c, T in enumerate(IT, start=c + 1): BODY` (BODY does not bind c) keeps a running count in c across loops: it
+    is `for T in IT: c += 1; BODY` (c is untouched if IT is empty, and holds the number of elements seen afterwards)."""
+    done = 0
+    for n in list(walk_function(fi.node)):
+        if not (isinstance(n, ast.For) and not n.orelse and isinstance(n.target, ast.Tuple) and len(n.target.elts) == 2 and isinstance(n.target.elts[0], ast.Name)):
+            continue
+        it = n.iter
+        if not (isinstance(it, ast.Call) and isinstance(it.func, ast.Name) and it.func.id == "enumerate" and it.args):
+            continue
+        start = it.args[1] if len(it.args) == 2 else ([k.value for k in it.keywords if k.arg == "start"] or [None])[0]
+        if start is None or len(it.args) + len(it.keywords) != 2:
+            continue
+        c = n.target.elts[0].id
+        if not (isinstance(start, ast.BinOp) and isinstance(start.op, ast.Add) and ((isinstance(start.left, ast.Name) and start.left.id == c and isinstance(start.right, ast.Constant) and start.right.value == 1) or (isinstance(start.right, ast.Name) and start.right.id == c and isinstance(start.left, ast.Constant) and start.left.value == 1))):
+            continue
+        if any(isinstance(x, ast.Name) and x.id == c and isinstance(x.ctx, (ast.Store, ast.Del)) for st in n.body for x in ast.walk(st)):
+            continue
+        from . import alpha
+
+        if _in_reference(fi, n, alpha.local_names(fi.node), ref_fingerprints):
+            continue
+        inc = ast.AugAssign(target=ast.Name(id=c, ctx=ast.Store()), op=ast.Add(), value=ast.Constant(value=1))
+        ast.copy_location(inc, n)
+        ast.fix_missing_locations(inc)
+        n.target = n.target.elts[1]
+        n.iter = it.args[0]
+        n.body.insert(0, inc)
+        done += 1
+    if done:
+        stats.setdefault("#enumerate_counter", []).append("%s:%d" % (fi.qual, done))
+    return done
+
+
+def _split_starred_unpack(fi, ref_fingerprints, stats):
+    """A new `a, *b = S` (S a name) is `a = S[0]; b = S[1:]`, a new `*a, b = S` is `a = S[:-1]; b = S[-1]`: both forms fail on
+    an empty S, and the slices are the list the star collects."""
+    from . import alpha
+
+    locs = alpha.local_names(fi.node)
+    done = 0
+    for n in list(walk_function(fi.node)):
+        if not (isinstance(n, ast.Assign) and len(n.targets) == 1 and isinstance(n.targets[0], (ast.Tuple, ast.List)) and len(n.targets[0].elts) == 2 and isinstance(n.value, ast.Name)):
+            continue
+        a, b = n.targets[0].elts
+        if isinstance(b, ast.Starred) and isinstance(b.value, ast.Name) and isinstance(a, ast.Name):
+            parts = [(a, ast.Subscript(value=n.value, slice=ast.Constant(value=0), ctx=ast.Load())), (b.value, ast.Subscript(value=_clone(n.value), slice=ast.Slice(lower=ast.Constant(value=1), upper=None, step=None), ctx=ast.Load()))]
+        elif isinstance(a, ast.Starred) and isinstance(a.value, ast.Name) and isinstance(b, ast.Name):
+            parts = [(a.value, ast.Subscript(value=n.value, slice=ast.Slice(lower=None, upper=ast.UnaryOp(op=ast.USub(), operand=ast.Constant(value=1)), step=None), ctx=ast.Load())), (b, ast.Subscript(value=_clone(n.value), slice=ast.UnaryOp(op=ast.USub(), operand=ast.Constant(value=1)), ctx=ast.Load()))]
+        else:
+            continue
+        if alpha._fingerprint(n, locs)[0] in ref_fingerprints:
+            continue
+        blk, _p = _block_of(n)
+        if blk is None:
+            continue
+        new = []
+        for t_, v_ in parts:
+            st = ast.Assign(targets=[ast.Name(id=t_.id, ctx=ast.Store())], value=v_, type_comment=None)
+            ast.copy_location(st, n)
+            ast.fix_missing_locations(st)
+            new.append(st)
+        i = [k for k, x in enumerate(blk) if x is n][0]
+        blk[i : i + 1] = new
+        done += 1
+    if done:
+        stats.setdefault("#starred_unpack", []).append("%s:%d" % (fi.qual, done))
+    return done
+
+
 def _plain_new_annassigns(fi, ref_fingerprints, stats):
     """A new `x: T = value` (Cython `cdef T x = value`) statement is `x = value`: the declaration carries no behaviour the rules read."""
     from . import alpha
@@ -1193,6 +1329,28 @@ class _NewIdioms(ast.NodeTransformer):
             ast.copy_location(new, node)
             ast.fix_missing_locations(new)
             return new
+        if nm == "itemgetter" and len(node.args) == 1 and not node.keywords and isinstance(node.args[0], ast.Constant) and isinstance(node.args[0].value, int):
+            self.n += 1
+            new = ast.Lambda(args=ast.arguments(posonlyargs=[], args=[ast.arg(arg="record")], kwonlyargs=[], kw_defaults=[], defaults=[]), body=ast.Subscript(value=ast.Name(id="record", ctx=ast.Load()), slice=ast.Constant(value=node.args[0].value), ctx=ast.Load()))
+            ast.copy_location(new, node)
+            ast.fix_missing_locations(new)
+            return new
+        if nm == "format" and isinstance(f, ast.Attribute) and isinstance(f.value, ast.Constant) and isinstance(f.value.value, str) and node.args and not node.keywords and not any(isinstance(a, ast.Starred) for a in node.args):
+            # "{}-{}".format(a, b) -> f"{a}-{b}" (plain positional placeholders only)
+            tpl = f.value.value
+            pieces = tpl.split("{}")
+            if len(pieces) == len(node.args) + 1 and not any("{" in x or "}" in x for x in pieces):
+                vals = []
+                for i_, lit in enumerate(pieces):
+                    if lit:
+                        vals.append(ast.Constant(value=lit))
+                    if i_ < len(node.args):
+                        vals.append(ast.FormattedValue(value=node.args[i_], conversion=-1, format_spec=None))
+                self.n += 1
+                new = ast.JoinedStr(values=vals)
+                ast.copy_location(new, node)
+                ast.fix_missing_locations(new)
+                return new
         if nm in ("all", "any") and isinstance(f, ast.Name) and len(node.args) == 1 and isinstance(node.args[0], ast.Call) and isinstance(node.args[0].func, ast.Name) and node.args[0].func.id == "map" and len(node.args[0].args) == 2 and not node.args[0].keywords:
             # all(map(F, X)) -> all(F(item) for item in X)
             F, X = node.args[0].args
@@ -3210,8 +3368,17 @@ def normalise(prog, ref):
                     set_parents(fi.node)
                 if _split_new_divmod(fi, ref_fps, stats):
                     set_parents(fi.node)
+                if _split_starred_unpack(fi, ref_fps, stats):
+                    set_parents(fi.node)
+                if _enumerate_counter_loops(fi, ref_fps, stats):
+                    set_parents(fi.node)
+                if _unfold_update_generators(fi, ref_fps, stats):
+                    set_parents(fi.node)
                 for _round in range(3):
                     k = _propagate_temps(fi, ref_locals, stats)
+                    if _distribute_ifexp_calls(fi, ref_locals, stats):
+                        set_parents(fi.node)
+                        k += 1
                     k += _coalesce_copies(fi, ref_locals, stats)
                     k += _merge_accumulators(fi, ref_locals, stats)
                     if _unfold_filtered_loops(fi, ref_fps, stats):
